@@ -58,7 +58,7 @@ SLOTS: dict[str, dict[str, str]] = {
     "queries.AliasedQuery": {"name": "name", "query": "Selectable|None"},
     "queries.Cte": {"terms": "tuple[Term,...]"},
     "queries.Schema": {"_name": "name", "_parent": "Schema|None"},
-    "queries.Table": {"_table_name": "name", "_schema": "Schema|None", "_query_cls": "any",
+    "queries.Table": {"_table_name": "name", "_schema": "Schema|None", "_query_cls": "querycls",
                       "_for": f"{NODE}|None", "_for_portion": f"{NODE}|None"},
     "queries.Column": {"name": "name", "type": "sql|None", "nullable": "bool|None", "default": "Term|None"},
     "queries.PeriodFor": {"name": "name", "start_column": "Column", "end_column": "Column"},
